@@ -156,14 +156,14 @@ def generate(rng, tier):
             def fill2(s):
                 return [s[0], [next(it) for _ in range(s[1])], [fill2(x) for x in s[2]]]
             yield f"crit (bexpr {sx(fill2(sh))}) {sx(its)} -", "boolexpr-truthtable"
-    nrand = 200 if tier == "quick" else 30000
+    nrand = 200 if tier == "quick" else 120000
     for _ in range(nrand):
         its = [P(n, *rng.choice(nums if rng.random() < 0.8 else VALUE_POOL)) for n in names]
         pool = [rand_cond(rng) for _ in range(6)]
         tree = rand_tree(rng, rng.randrange(1, 6), rng.choice(["and", "or"]), pool)
         yield f"crit (bexpr {sx(tree)}) {sx(its)} -", "boolexpr-random"
     # --- comparison lists (conjunction) and discrete lookups (first match)
-    for _ in range(150 if tier == "quick" else 10000):
+    for _ in range(150 if tier == "quick" else 40000):
         its = rand_items(rng)
         cl = [cmp_sx(rng.choice(names), rng.choice(OPS), rng.choice(LITS[:9]), rng.random() < 0.7)
               for _ in range(rng.randrange(0, 4))]
